@@ -238,7 +238,8 @@ class PoolStream(FM.FormulaStream):
 
 
 def streams():
-    return [StrStream(), HoStream(), SignedStream(), FM.FloatBoundaryStream(), PoolStream()]
+    from harness import c13
+    return [StrStream(), HoStream(), SignedStream(), FM.FloatBoundaryStream(), PoolStream(), c13.Ho3Stream()]
 
 
 ASSUMPTIONS = [
